@@ -493,6 +493,14 @@ type genDialectEntry struct {
 
 var genDialects []genDialectEntry
 
+// genEnumEntry: one enum type of a generated package (closures written by lib/checks/c18.py into zz_gen_probe.go)
+type genEnumEntry struct {
+	I int
+	T enumType
+}
+
+var genEnums []genEnumEntry
+
 // cmdC18Probe: -vectors GENRUN records ; -aux comma separated indices that did not compile
 func cmdC18Probe(o opts) {
 	rec := newRec(o.out)
@@ -507,6 +515,20 @@ func cmdC18Probe(o opts) {
 	byI := map[int]genDialectEntry{}
 	for _, g := range genDialects {
 		byI[g.I] = g
+	}
+	if o.aux == "enums" {
+		// C19 on generated dialects: text round trip of every enum type of every generated package
+		for _, ge := range genEnums {
+			var cs []enumConst
+			for _, c := range byI[ge.I].Consts {
+				if c.Pkg+"."+c.Enum == ge.T.Name {
+					cs = append(cs, c)
+				}
+			}
+			rec.Put(enumRecord(ge.T, cs, r, o.tier == "thorough"))
+		}
+		rec.Close()
+		return
 	}
 	for _, run := range runs {
 		out := M{"e": "GEN", "i": run.I, "doc": run.Doc, "gen_err": run.GenErr, "deterministic": run.Deterministic,
